@@ -842,6 +842,11 @@ func (e *orderEngine) classify(l *mapLoop) []sink {
 			if keyVal != nil && injectiveOf(keyVal, loopKey(l)) {
 				return
 			}
+			// `if _, ok := m[k]; !ok { m[k] = make(…) }`: installing an empty container
+			// when the key is still absent gives the same map in any order
+			if mu, ok := ins.(*ssa.MapUpdate); ok && direct && initIfAbsent(mu) {
+				return
+			}
 			if keyConst || (keyVal != nil && !dep[keyVal]) {
 				if !valDep {
 					return
@@ -853,6 +858,13 @@ func (e *orderEngine) classify(l *mapLoop) []sink {
 		case "store":
 			if valConst || !valDep {
 				return
+			}
+			// the loop's own value variable (or any local cell) that is only read
+			// inside the loop body never shows which entry came last
+			if direct && target != nil {
+				if al := cellOf(target); al != nil && onlyReadInside(al, l) {
+					return
+				}
 			}
 			add(ins, "assigns an iteration-dependent value to %s (last visited entry wins) [%s]", d, why)
 		case "unknown":
@@ -1823,4 +1835,106 @@ func rangeDesc(v ssa.Value) string {
 		return "tuple element"
 	}
 	return v.Type().String()
+}
+
+// initIfAbsent: the update stores a fresh empty container and is control-
+// dependent on a comma-ok look-up of the same map and key.
+func initIfAbsent(mu *ssa.MapUpdate) bool {
+	switch v := mu.Value.(type) {
+	case *ssa.MakeMap:
+	case *ssa.MakeSlice:
+		if k, ok := constInt(v.Len); !ok || k != 0 {
+			return false
+		}
+	default:
+		return false
+	}
+	f := mu.Parent()
+	found := false
+	eachInstr(f, func(_ *ssa.BasicBlock, i ssa.Instruction) {
+		lk, ok := i.(*ssa.Lookup)
+		if !ok || found {
+			return
+		}
+		if exprKey(lk.X, 0) != exprKey(mu.Map, 0) || exprKey(lk.Index, 0) != exprKey(mu.Key, 0) {
+			return
+		}
+		// the absent outcome, and only it, leads to the update (within one iteration:
+		// paths that go round the loop through the test again do not count)
+		if lk.Referrers() == nil {
+			return
+		}
+		for _, r := range *lk.Referrers() {
+			ex, ok := r.(*ssa.Extract)
+			if !ok || ex.Index != 1 {
+				continue
+			}
+			for _, br := range branchesOn(ex) {
+				tb := br.If.Block()
+				okSide := blockReachesAvoiding(br.TrueSucc, mu.Block(), tb)
+				absent := blockReachesAvoiding(br.FalseSucc, mu.Block(), tb)
+				if absent && !okSide {
+					found = true
+				}
+			}
+		}
+	})
+	return found
+}
+
+// cellOf: the local allocation an address belongs to (the cell itself or a field of it).
+func cellOf(addr ssa.Value) *ssa.Alloc {
+	for d := 0; d < 6 && addr != nil; d++ {
+		switch x := addr.(type) {
+		case *ssa.Alloc:
+			return x
+		case *ssa.FieldAddr:
+			addr = x.X
+		case *ssa.IndexAddr:
+			addr = x.X
+		default:
+			return nil
+		}
+	}
+	return nil
+}
+
+// onlyReadInside: every use of the cell other than stores into it lies in the
+// loop body, and the cell's address does not escape (no call argument, no
+// closure capture, no store of the address).
+func onlyReadInside(al *ssa.Alloc, l *mapLoop) bool {
+	if al.Referrers() == nil {
+		return true
+	}
+	var ok func(v ssa.Value, d int) bool
+	ok = func(v ssa.Value, d int) bool {
+		if d > 4 || v.Referrers() == nil {
+			return d <= 4
+		}
+		for _, r := range *v.Referrers() {
+			switch x := r.(type) {
+			case *ssa.Store:
+				if x.Val == v {
+					return false // address stored somewhere
+				}
+			case *ssa.UnOp:
+				if !l.body[x.Block()] {
+					return false
+				}
+			case *ssa.FieldAddr:
+				if !ok(x, d+1) {
+					return false
+				}
+			case *ssa.IndexAddr:
+				if !ok(x, d+1) {
+					return false
+				}
+			case *ssa.DebugRef:
+			default:
+				return false // escapes (call argument, closure, phi …)
+			}
+		}
+		return true
+	}
+	return ok(al, 0)
 }
